@@ -528,10 +528,75 @@ Qed.
 (* ------------------------------------------------------------------ *)
 (* str / bytes literals *)
 
+Lemma sbody_eq : forall bm q c r, sbody bm q (c :: r) =
+
+      if Ascii.eqb c q then Some ([], r)
+      else if (N.eqb (code c) 10 || N.eqb (code c) 13)%bool then None
+      else if N.eqb (code c) 92 then
+        match r with
+        | [] => None
+        | e :: r1 =>
+            match simple_escape e with
+            | Some v => cons1 v (sbody bm q r1)
+            | None =>
+                if is_octal e then
+                  match r1 with
+                  | e2 :: r2 =>
+                      if is_octal e2 then
+                        match r2 with
+                        | e3 :: r3 =>
+                            if is_octal e3
+                            then cons1 (octv bm (64 * dig e + 8 * dig e2 + dig e3)) (sbody bm q r3)
+                            else cons1 (8 * dig e + dig e2)%N (sbody bm q r2)
+                        | [] => None
+                        end
+                      else cons1 (dig e) (sbody bm q r1)
+                  | [] => None
+                  end
+                else if Ascii.eqb e "x" then
+                  match r1 with
+                  | h1 :: h2 :: r3 =>
+                      if (is_hex h1 && is_hex h2)%bool
+                      then cons1 (16 * hexdig h1 + hexdig h2)%N (sbody bm q r3)
+                      else None
+                  | _ => None
+                  end
+                else if (negb bm && Ascii.eqb e "N")%bool then None
+                else if (negb bm && Ascii.eqb e "u")%bool then
+                  match r1 with
+                  | h1 :: h2 :: h3 :: h4 :: r5 =>
+                      if forallb is_hex [h1; h2; h3; h4]
+                      then cons1 (hval [h1; h2; h3; h4]) (sbody bm q r5)
+                      else None
+                  | _ => None
+                  end
+                else if (negb bm && Ascii.eqb e "U")%bool then
+                  match r1 with
+                  | h1 :: h2 :: h3 :: h4 :: h5 :: h6 :: h7 :: h8 :: r9 =>
+                      if (forallb is_hex [h1; h2; h3; h4; h5; h6; h7; h8]
+                          && N.leb (hval [h1; h2; h3; h4; h5; h6; h7; h8]) 1114111)%bool
+                      then cons1 (hval [h1; h2; h3; h4; h5; h6; h7; h8]) (sbody bm q r9)
+                      else None
+                  | _ => None
+                  end
+                else if (N.eqb (code e) 10 || N.eqb (code e) 13)%bool then None
+                else if (bm && N.leb 128 (code e))%bool then None
+                else cons2 92 (code e) (sbody bm q r1)   
+            end
+        end
+      else if (bm && N.leb 128 (code c))%bool then None   
+      else cons1 (code c) (sbody bm q r).
+Proof. reflexivity. Qed.
+
 Lemma sbody_esc_char : forall bm q a tl, (q = chr 34 \/ q = chr 39) ->
   sbody bm q (esc_char bm q a ++ tl) = cons1 (code a) (sbody bm q tl).
 Proof.
-  intros bm q a tl [-> | ->]; destruct bm; all_chars a; vm_compute; reflexivity.
+  intros bm q a tl [-> | ->]; destruct bm; all_chars a;
+    match goal with |- sbody ?b ?q (?e ++ _) = _ =>
+      let e' := eval vm_compute in e in change e with e' end;
+    cbn [app]; rewrite sbody_eq;
+    match goal with |- context [sbody ?b ?q] => set (R := sbody b q); clearbody R end;
+    vm_compute; reflexivity.
 Qed.
 
 Lemma sbody_ok : forall bm q s x, (q = chr 34 \/ q = chr 39) -> forallb small s = true ->
@@ -563,4 +628,155 @@ Proof.
   destruct (pick_quote_cases s) as [E|E]; rewrite E; cbn [app]; rewrite <- app_assoc; cbn [app];
     unfold lit_string; cbn [is_quote code chr ascii_of_N ascii_of_pos N_of_ascii N_of_digits N.eqb Pos.eqb orb N.add N.mul Ascii.eqb Bool.eqb andb];
     (rewrite sbody_ok; [reflexivity|auto|exact Hs]).
+Qed.
+
+(* ------------------------------------------------------------------ *)
+(* literals *)
+
+Lemma number_head : forall s v y, number s = Some (v, y) -> exists c r, s = c :: r /\ is_digit c = true.
+Proof.
+  intros s v y H. unfold number, lex_dec in H. destruct s as [|c r]; [discriminate|].
+  cbn [span] in H. destruct (is_digit c) eqn:E; [eauto|discriminate].
+Qed.
+
+Lemma number_not_hex : forall s v y, number s = Some (v, y) -> fstop y -> lit_hex s = None.
+Proof.
+  intros s v y H Hy. unfold lit_hex. destruct s as [|z r0]; [reflexivity|].
+  destruct (Ascii.eqb_spec z "0") as [->|]; [|reflexivity].
+  destruct r0 as [|c r]; [reflexivity|].
+  destruct (Ascii.eqb_spec c "x") as [->|]; [|reflexivity].
+  cbn in H. inversion H; subst. cbn in Hy. discriminate.
+Qed.
+
+Lemma number_not_string : forall s v y, number s = Some (v, y) -> lit_string s = None.
+Proof.
+  intros s v y H. destruct (number_head _ _ _ H) as (c & r & -> & Hc).
+  unfold lit_string. now rewrite digit_not_quote, digit_not_b.
+Qed.
+
+Lemma literal_num : forall a w y, wf_elem a = true -> ws_only w -> fstop y ->
+  literal (w ++ print_num a ++ y) = Some (PNum a, y).
+Proof.
+  intros a w y Ha Hw Hy. unfold literal. rewrite skip_ws_app by exact Hw.
+  pose proof (number_ok a y Ha Hy) as Hn.
+  destruct (print_num_elem a Ha) as (c & r & E & Hc).
+  assert (Es : skip_ws (print_num a ++ y) = print_num a ++ y).
+  { rewrite E. cbn [app]. apply skip_ws_cons. now apply digit_not_ws. }
+  rewrite Es. rewrite (number_not_string _ _ _ Hn), (number_not_hex _ _ _ Hn Hy).
+  unfold lit_dec. now rewrite Hn.
+Qed.
+
+Lemma vec_nums_step : forall k a w y, wf_elem a = true -> ws_only w -> fstop y ->
+  vec_nums (S k) (w ++ print_num a ++ y) =
+  match skip_ws y with
+  | c :: r =>
+      match k with
+      | O => if Ascii.eqb c ")" then Some ([a], r) else None
+      | S _ => if Ascii.eqb c "," then
+                 match vec_nums k r with Some (l, r') => Some (a :: l, r') | None => None end
+               else None
+      end
+  | [] => None
+  end.
+Proof.
+  intros k a w y Ha Hw Hy. cbn [vec_nums]. rewrite skip_ws_app by exact Hw.
+  destruct (print_num_elem a Ha) as (c & r & E & Hc).
+  assert (Es : skip_ws (print_num a ++ y) = print_num a ++ y).
+  { rewrite E. cbn [app]. apply skip_ws_cons. now apply digit_not_ws. }
+  rewrite Es, (number_ok a y Ha Hy). reflexivity.
+Qed.
+
+Definition tup_text (l : list num) : text := sep_by [","; " "] (map print_num l).
+
+Lemma vec_nums_ok : forall l w x, l <> [] -> forallb wf_elem l = true -> ws_only w ->
+  vec_nums (length l) (w ++ tup_text l ++ ")" :: x) = Some (l, x).
+Proof.
+  induction l as [|a l IH]; intros w x Hn Hl Hw; [congruence|].
+  cbn in Hl. apply andb_true_iff in Hl as [Ha Hl].
+  destruct l as [|b l].
+  - unfold tup_text. cbn [map sep_by length]. rewrite vec_nums_step; auto; reflexivity.
+  - pose proof (IH [" "] x ltac:(discriminate) Hl eq_refl) as E. cbn [app] in E.
+    unfold tup_text in *.
+    change (sep_by [","; " "] (map print_num (a :: b :: l)))
+      with (print_num a ++ [","; " "] ++ sep_by [","; " "] (map print_num (b :: l))).
+    set (T := sep_by [","; " "] (map print_num (b :: l))) in *.
+    cbn [length] in *. rewrite <- !app_assoc. cbn [app].
+    rewrite vec_nums_step; auto; [|reflexivity].
+    rewrite skip_ws_cons by reflexivity. rewrite Ascii.eqb_refl. now rewrite E.
+Qed.
+
+Lemma vec3_of_4 : forall a b c d x, forallb wf_elem [a; b; c; d] = true ->
+  vec_nums 3 (tup_text [a; b; c; d] ++ ")" :: x) = None.
+Proof.
+  intros a b c d x H. cbn in H.
+  apply andb_true_iff in H as [Ha H]. apply andb_true_iff in H as [Hb H]. apply andb_true_iff in H as [Hc _].
+  unfold tup_text.
+  change (sep_by [","; " "] (map print_num [a; b; c; d]))
+    with (print_num a ++ [","; " "] ++ print_num b ++ [","; " "] ++ print_num c ++ [","; " "] ++ print_num d).
+  rewrite <- !app_assoc. cbn [app].
+  change (vec_nums 3 (print_num a ++ ?z)) with (vec_nums 3 ([] ++ print_num a ++ z)).
+  rewrite (vec_nums_step 2 a []) by (try assumption; reflexivity).
+  rewrite skip_ws_cons by reflexivity. rewrite Ascii.eqb_refl.
+  change (vec_nums 2 (" " :: print_num b ++ ?z)) with (vec_nums 2 ([" "] ++ print_num b ++ z)).
+  rewrite (vec_nums_step 1 b [" "]) by (try assumption; reflexivity).
+  rewrite skip_ws_cons by reflexivity. rewrite Ascii.eqb_refl.
+  change (vec_nums 1 (" " :: print_num c ++ ?z)) with (vec_nums 1 ([" "] ++ print_num c ++ z)).
+  rewrite (vec_nums_step 0 c [" "]) by (try assumption; reflexivity).
+  rewrite skip_ws_cons by reflexivity. reflexivity.
+Qed.
+
+Lemma wf_bool_inv : forall x, wf_bool x = true -> x = mkNum KB 0 1 \/ x = mkNum KB 1 1.
+Proof.
+  intros [k n d] H. unfold wf_bool in H. cbn [nkind nnum nden] in H.
+  apply andb_true_iff in H as [H H3]. apply andb_true_iff in H as [H1 H2].
+  apply Pos.eqb_eq in H3. subst d. destruct k; try discriminate.
+  apply orb_true_iff in H2 as [H2|H2]; apply Z.eqb_eq in H2; subst; auto.
+Qed.
+
+Lemma tup_text_head : forall l, l <> [] -> forallb wf_elem l = true ->
+  exists c r, tup_text l = c :: r /\ is_digit c = true.
+Proof.
+  intros [|a l] Hn Hl; [congruence|]. cbn in Hl. apply andb_true_iff in Hl as [Ha _].
+  destruct (print_num_elem a Ha) as (c & r & E & Hc). unfold tup_text. cbn [map sep_by].
+  destruct (map print_num l); rewrite E; cbn [app]; eauto.
+Qed.
+
+Lemma literal_ok : forall v w x, wf_lit v = true -> ws_only w -> fstop x ->
+  literal (w ++ print_pv v ++ x) = Some (v, x).
+Proof.
+  intros v w x Hv Hw Hx. destruct v as [|a|s|[j|] b|l| |]; try discriminate Hv; cbn [wf_lit print_pv] in *.
+  - unfold literal. rewrite skip_ws_app by exact Hw. reflexivity.
+  - apply orb_true_iff in Hv as [Hv|Hv]; [apply orb_true_iff in Hv as [Hv|Hv]|].
+    + unfold literal. rewrite skip_ws_app by exact Hw.
+      destruct (wf_bool_inv a Hv) as [-> | ->]; reflexivity.
+    + apply literal_num; auto. unfold wf_elem. now rewrite Hv.
+    + apply literal_num; auto. unfold wf_elem. rewrite Hv. now rewrite orb_true_r.
+  - unfold literal. rewrite skip_ws_app by exact Hw.
+    assert (Es : skip_ws (print_quoted false s ++ x) = print_quoted false s ++ x).
+    { unfold print_quoted. destruct (pick_quote_cases s) as [E|E]; rewrite E; reflexivity. }
+    rewrite Es, lit_string_str by exact Hv. reflexivity.
+  - unfold literal. rewrite skip_ws_app by exact Hw. cbn [app].
+    rewrite skip_ws_cons by reflexivity. rewrite lit_string_bytes by exact Hv. reflexivity.
+  - unfold literal. rewrite skip_ws_app by exact Hw. cbn [app].
+    rewrite skip_ws_cons by reflexivity.
+    apply andb_true_iff in Hv as [Hlen Hl].
+    assert (Hl' : forallb wf_elem l = true) by exact Hl.
+    change (sep_by [","; " "] (map print_num l)) with (tup_text l). rewrite <- app_assoc. cbn [app].
+    assert (Hne : l <> []) by (intros ->; discriminate Hlen).
+    destruct (tup_text_head l Hne Hl') as (c & r & E & Hc).
+    set (body := tup_text l ++ ")" :: x).
+    assert (Hs : lit_string ("(" :: body) = None) by reflexivity.
+    assert (Hh : lit_hex ("(" :: body) = None) by reflexivity.
+    assert (Hd : lit_dec ("(" :: body) = None) by reflexivity.
+    rewrite Hs, Hh, Hd.
+    change (kw kw_None PNone ("(" :: body)) with (@None (pv * text)).
+    change (kw kw_True (bool_ true) ("(" :: body)) with (@None (pv * text)).
+    change (kw kw_False (bool_ false) ("(" :: body)) with (@None (pv * text)).
+    unfold lit_vec. cbn [Ascii.eqb Bool.eqb]. cbn match. unfold body.
+    apply orb_true_iff in Hlen as [Hlen|Hlen]; apply Nat.eqb_eq in Hlen.
+    + pose proof (vec_nums_ok l [] x Hne Hl' eq_refl) as V. cbn [app] in V. rewrite Hlen in V.
+      rewrite V. reflexivity.
+    + destruct l as [|a1 [|a2 [|a3 [|a4 [|a5 l]]]]]; try discriminate Hlen.
+      pose proof (vec_nums_ok [a1; a2; a3; a4] [] x Hne Hl' eq_refl) as V. cbn [app length] in V.
+      rewrite (vec3_of_4 a1 a2 a3 a4 x Hl'). rewrite V. reflexivity.
 Qed.
